@@ -178,6 +178,13 @@ func damage(bin []byte, kind string, n int, rng *mrand.Rand) []byte {
 		b[len(b)-20] ^= 0x10
 	case "trunc":
 		b = b[:len(b)-10]
+	case "trunc_chunk":
+		// exactly at a chunk boundary: after the first whole chunk if there is more than one, else right after the nonce
+		cut := macEnd + 16
+		if len(b) > cut+65536+16 {
+			cut += 65536 + 16
+		}
+		b = b[:cut]
 	case "garbage":
 		b = make([]byte, 300)
 		rng.Read(b)
